@@ -417,15 +417,16 @@ func run(t *testing.T, tc tcase) obs {
 	pend := []*pending{}
 	for i, b := range tc.Blocks {
 		o.Blocks = append(o.Blocks, c.runBlock(b))
-		if i == 0 {
-			c.lateSetup(tc)
-		}
 		if tc.Queries {
 			c.runQueries()
 		}
-		if restartAt[i] {
+		if restartAt[i] && i > 0 {
 			c.restart()
 			o.Restarts = append(o.Restarts, i)
+		}
+		if i == 0 {
+			// after a possible restart: lateSetup writes to the uncommitted working state of the running application
+			c.lateSetup(tc)
 		}
 		if exportAt[i] {
 			p := c.export(i)
